@@ -745,6 +745,7 @@ impl Popen {
                             pid,
                             result: format!("err:{}", errno),
                         });
+                        w.reaped_elsewhere(pid);
                         return Err(io::Error::from_raw_os_error(errno));
                     }
                     w.advance_until(None, &WaitFor::ProcExit(pid), "wait");
@@ -782,6 +783,11 @@ impl Popen {
                             kind: format!("wait_error:{}", errno),
                             pid: Some(pid),
                         });
+                        w.log(LogEv::Wait {
+                            pid,
+                            result: format!("err:{}", errno),
+                        });
+                        w.reaped_elsewhere(pid);
                         return Err(io::Error::from_raw_os_error(errno));
                     }
                     let until = w.now + dur.as_nanos().min(u64::MAX as u128 / 4) as u64;
